@@ -5,6 +5,8 @@ import (
 	"math"
 	"sync"
 	"time"
+
+	"github.com/postalsys/muti-metroo/internal/verifhook"
 )
 
 // ReconnectConfig contains configuration for reconnection behavior.
@@ -94,6 +96,8 @@ func (r *Reconnector) Schedule(addr string) {
 
 // attemptReconnect attempts to reconnect to the given address.
 func (r *Reconnector) attemptReconnect(addr string) {
+	verifhook.Point("peer.reconnect.fire", r, addr)
+	defer verifhook.Point("peer.reconnect.fired", r, addr)
 	r.mu.Lock()
 	state, exists := r.states[addr]
 	if !exists || r.closed || r.paused {
